@@ -188,7 +188,7 @@ def big_out_specs(draw):
 @st.composite
 def cases(draw, small: bool):
     spec = out_specs() if small else st.one_of(out_specs(), big_out_specs())
-    hist_n = draw(st.sampled_from([0, 1, 1, 2, 3, 4]))
+    hist_n = draw(st.sampled_from([1, 2, 3, 4, 1, 0]))
     names = ["r%d" % i for i in range(hist_n)]
     history = [[nm, draw(spec)] for nm in names]
     new_name = draw(st.sampled_from(["new", "new", "new", "r0", "ü"]))
@@ -203,7 +203,7 @@ def _sample(case):
 
 def plan(tier: str) -> list[dict]:
     if tier == "quick":
-        return [{"examples": 2, "small": False, "cost": 5} for _ in range(6)]
+        return [{"examples": 3, "small": False, "cost": 5} for _ in range(8)]
     return [{"examples": 40, "small": False, "cost": 10} for _ in range(16)]
 
 
